@@ -187,7 +187,8 @@ class BpWorld(object):
     PROBE_EID = 'dtn://node/probe'
 
     def __init__(self, node_id='dtn://node/', rx_routes=(), tx_routes=(), accept=False, safe_endpoint=None,
-                 setup=None, adaptors=False, fresh=True, bus_key='bp-bus', ext_cl=None, probe_eid=None):
+                 setup=None, adaptors=False, fresh=True, bus_key='bp-bus', ext_cl=None, probe_eid=None,
+                 defer_attach=()):
         ''' rx_routes: [(prefix, action)], tx_routes: [(prefix, next_node, mtu[, cltype])] (prefix match).
         adaptors: transmit routes go through the real bp.cla adaptor of their cltype ('udpcl' / 'btpu') to a
         stand-in CL service on the bus, which may leave and re-join the bus (cl_down / cl_up). '''
@@ -241,7 +242,9 @@ class BpWorld(object):
                 self.cl_svc[cltype] = make_cl_service(self, cltype, cfg.bus_conn)
                 cfg.bus_conn.request_name(CL_SERVICES[cltype][0])
                 self.cl_up_now[cltype] = True
-                self.agent.cl_attach(cltype, CL_SERVICES[cltype][0])
+                # (defer_attach: the node learns about this CL daemon only later, see cl_attach_late)
+                if cltype not in defer_attach:
+                    self.agent.cl_attach(cltype, CL_SERVICES[cltype][0])
         for (cltype, (servname, _params)) in sorted(self.ext_cl.items()):
             self.cl_up_now[cltype] = True
             self.agent.cl_attach(cltype, servname)
@@ -359,6 +362,11 @@ class BpWorld(object):
             if eid.startswith(prefix):
                 return self.cl_up_now.get(cltype, True)
         return False
+
+    def cl_attach_late(self, cltype):
+        ''' The node is told about a CL daemon after it has started handling bundles (asynchronous start-up). '''
+        self.agent.cl_attach(cltype, CL_SERVICES[cltype][0])
+        self.emit('ClState', cl=cltype, up=True)
 
     def cl_down(self, cltype):
         ''' The CL daemon leaves the bus (NameOwnerChanged with an empty new owner). '''
